@@ -907,6 +907,12 @@ func (p *c34Parser) doSwitch(sw *ast.SwitchStmt, s *c34St, ctl c34Ctl) {
 				tagOff, tagOnBlock = s.off+k, true
 			}
 		}
+		if id, ok := unparen(sw.Tag).(*ast.Ident); ok && !tagOnBlock {
+			// `r := block[i]; switch r {`: a rune local assigned on this path from one source rune
+			if parts, ok := p.bound(p.info.ObjectOf(id), s); ok && len(parts) == 1 && parts[0].Kind == c34Src {
+				tagOff, tagOnBlock = parts[0].Off, true
+			}
+		}
 		if tagOnBlock && s.caseKey == "" && s.depth == 0 && p.outer == nil || sw == p.outer {
 			isOuter = true
 			p.outer = sw
@@ -1032,6 +1038,10 @@ func (p *c34Parser) assign(as *ast.AssignStmt, s *c34St) {
 				s.evs = append(s.evs, c34Event{Kind: c34EvTrunc, Pos: as.Pos(), Off: s.off, Trunc: n})
 				return
 			}
+			if n, ok := p.trimSuffixOf(rhs, s); ok {
+				s.evs = append(s.evs, c34Event{Kind: c34EvTrunc, Pos: as.Pos(), Off: s.off, Trunc: n})
+				return
+			}
 			// out = out + …  |  out = <colour> (prologue)
 			parts := p.evalString(rhs, s)
 			if len(parts) > 0 && parts[0].Kind == c34Unknown && parts[0].Desc == "\x00self" {
@@ -1057,7 +1067,16 @@ func (p *c34Parser) assign(as *ast.AssignStmt, s *c34St) {
 		}
 		s.evs = append(s.evs, c34Event{Kind: c34EvIdxBad, Pos: as.Pos(), Off: s.off, Note: p.c.src(as)})
 	default:
-		p.store(s, lhs, as.Tok, rhs, as.Pos())
+		tok := as.Tok
+		if be, ok := unparen(rhs).(*ast.BinaryExpr); ok && tok == token.ASSIGN && (be.Op == token.ADD || be.Op == token.SUB) &&
+			p.c.sameExpr(be.X, lhs) && len(calls(lhs, true)) == 0 {
+			// `x = x + y` is the spelled-out `x += y` (strings: only with x as the LEFT operand)
+			tok, rhs = token.ADD_ASSIGN, be.Y
+			if be.Op == token.SUB {
+				tok = token.SUB_ASSIGN
+			}
+		}
+		p.store(s, lhs, tok, rhs, as.Pos())
 	}
 }
 
@@ -1093,6 +1112,45 @@ func (p *c34Parser) truncOf(e ast.Expr) (int, bool) {
 		return 0, false
 	}
 	return int(k), true
+}
+
+// trimSuffixOf recognises strings.TrimSuffix(out, string(block[i-k])) on a path where a
+// decision strings.HasSuffix(out, <the same source rune>) == true holds and nothing was appended
+// or cut since: the call then removes exactly that rune, like out[:len(out)-1] does for a
+// single-byte rune (the consumers require the rune to be pinned to single-byte values).
+func (p *c34Parser) trimSuffixOf(e ast.Expr, s *c34St) (int, bool) {
+	call, ok := unparen(e).(*ast.CallExpr)
+	if !ok || len(call.Args) != 2 || !callIs(p.info, call, "strings", "", "TrimSuffix") || !p.isObj(call.Args[0], p.out) {
+		return 0, false
+	}
+	parts := p.evalString(call.Args[1], s)
+	if len(parts) != 1 || parts[0].Kind != c34Src {
+		return 0, false
+	}
+	for _, d := range s.decs {
+		clean := true
+		for _, ev := range s.evs[min(d.Seq, len(s.evs)):] {
+			if ev.Kind == c34EvEmit || ev.Kind == c34EvTrunc {
+				clean = false
+			}
+		}
+		if !clean {
+			continue
+		}
+		for _, f := range factsOf([]Guard{{Cond: d.E, Neg: !d.Truth}}) {
+			hc, isCall := unparen(f.E).(*ast.CallExpr)
+			if !isCall || !f.True || len(hc.Args) != 2 || !callIs(p.info, hc, "strings", "", "HasSuffix") || !p.isObj(hc.Args[0], p.out) {
+				continue
+			}
+			st := p.newState()
+			st.off = d.Off
+			hp := p.evalString(hc.Args[1], st)
+			if len(hp) == 1 && hp[0].Kind == c34Src && hp[0].Off == parts[0].Off {
+				return 1, true
+			}
+		}
+	}
+	return 0, false
 }
 
 func (p *c34Parser) store(s *c34St, lhs ast.Expr, op token.Token, rhs ast.Expr, pos token.Pos) {
@@ -1210,6 +1268,9 @@ func (p *c34Parser) classify(rhs ast.Expr) string {
 				return "&" + f
 			}
 		}
+	}
+	if p.isFoldCall(rhs) {
+		return "foldcall" // Unsafe = isCmdUnsafe(FuncName): a fold only where Unsafe is known false (c34Summarise)
 	}
 	if be, ok := rhs.(*ast.BinaryExpr); ok && be.Op == token.LOR {
 		fu := func(a, b ast.Expr) bool {
